@@ -461,6 +461,11 @@ class Check:
         payload = dict(payload, property=self.prop)
         path = write_replay(self.prop, payload)
         self.violations.append((path, suffix))
+        # one line of detail for the log (the replay file may not travel with it)
+        brief = {k: (str(v)[:400]) for k, v in payload.items() if k in ('kind', 'why', 'problem', 'source', 'options', 'other_options', 'output', 'recompiled',
+                                                                        'expected', 'actual', 'class', 'label', 'setting', 'broken', 'argv', 'problems')}
+        self.details = getattr(self, 'details', [])
+        self.details.append('DETAIL property=%s replay=%s %s' % (self.prop, path, json.dumps(brief, default=str)[:1800]))
         return path
 
     def known(self, what: str):
@@ -481,6 +486,8 @@ class Check:
         for k in self.known_printed:
             print('KNOWN-FINDING: property=%s %s' % (self.prop, k))
         if self.violations:
+            for dline in getattr(self, 'details', [])[:6]:
+                print(dline)
             seen = set()
             for path, suffix in self.violations:
                 if path in seen:
